@@ -100,6 +100,17 @@ fn chacha(seed: u64, tag: &[u8; 4]) -> rand_chacha::ChaCha20Rng {
 /// (receiver tape, sender tape).
 /// tweak 0: random; 1: beta all-0; 2: beta all-1; 3: ext: all-zero tapes (eta0 = 0) / ot: first scalar draw of every
 /// party >= q (rejection sampling retries); 4: ext: all-FF tapes; 5: ext: all-zero sender tape only (eta0 = 0, beta random)
+/// 6: beta with whole 64-bit words zero (each with probability 1/2); 7: beta one-hot; 8: beta with 3 of 4 bytes zero
+fn structured_beta(beta: &mut [u8], seed: u64, tweak: u32) {
+    let mut rng = chacha(seed ^ 0x6265_7461, b"c01b");
+    match tweak {
+        6 => { let mut any = false; for w in beta.chunks_mut(8) { if rng.next_u32() & 1 == 0 { w.iter_mut().for_each(|b| *b = 0); any = true; } }
+               if !any { beta[..8].iter_mut().for_each(|b| *b = 0); } }
+        7 => { beta.iter_mut().for_each(|b| *b = 0); let j = (rng.next_u32() as usize) % (beta.len() * 8); beta[j / 8] = 1 << (j % 8); }
+        8 => { for b in beta.iter_mut() { if rng.next_u32() & 3 != 0 { *b = 0; } } }
+        _ => {}
+    }
+}
 fn tapes(v: Variant, seed: u64, tweak: u32) -> (Vec<u8>, Vec<u8>) {
     let mut rng = chacha(seed, b"c01t");
     match v {
@@ -112,6 +123,7 @@ fn tapes(v: Variant, seed: u64, tweak: u32) -> (Vec<u8>, Vec<u8>) {
                 3 => { r.iter_mut().for_each(|b| *b = 0); s.iter_mut().for_each(|b| *b = 0); }
                 4 => { r.iter_mut().for_each(|b| *b = 0xff); s.iter_mut().for_each(|b| *b = 0xff); }
                 5 => s.iter_mut().for_each(|b| *b = 0),
+                6..=8 => structured_beta(&mut r[..L_BYTES], seed, tweak),
                 _ => {}
             }
             (r, s)
@@ -123,6 +135,7 @@ fn tapes(v: Variant, seed: u64, tweak: u32) -> (Vec<u8>, Vec<u8>) {
                 1 => { for h in 0..2 { r[h * EOT_RTAPE..h * EOT_RTAPE + 128].iter_mut().for_each(|b| *b = 0); } }
                 2 => { for h in 0..2 { r[h * EOT_RTAPE..h * EOT_RTAPE + 128].iter_mut().for_each(|b| *b = 0xff); } }
                 3 => { r[128..160].iter_mut().for_each(|b| *b = 0xff); s[..32].iter_mut().for_each(|b| *b = 0xff); }
+                6..=8 => { for h in 0..2 { structured_beta(&mut r[h * EOT_RTAPE..h * EOT_RTAPE + 128], seed + h as u64, tweak); } }
                 _ => {}
             }
             (r, s)
@@ -496,6 +509,7 @@ fn mutation(base: &Base, name: &str, pseed: u64) -> Option<(Vec<u8>, Option<Stri
         "a_tilde" => Some((off, A_BYTES)),
         "eta" => Some((eta, E_BYTES)), "mu_hash" => Some((muh, H_BYTES)),
         "eta+mu_hash" => Some((eta, E_BYTES + H_BYTES)),
+        _ if rest.starts_with("entry@") => { let (j, i) = rest[6..].split_once('.')?; Some((ent(j.parse().ok()?, i.parse().ok()?), KAPPA_BYTES)) }
         _ => None } };
     match field {
         "multibit" => { let w: usize = rest.parse().ok()?; let mut ps: Vec<usize> = (off * 8..v.msg_len() * 8).collect(); ps.shuffle(&mut rng); for &p in &ps[..w] { flip(&mut m, p); } }
@@ -801,7 +815,7 @@ fn run_c01(o: &Opts, cx: &mut Ctx) {
             for (v, prov) in combos {
                 for tp in 0..2 {
                     let sid = gen_sid(&mut rng, n);
-                    let tweak = if tp == 0 { 0 } else { [1u32, 2, 3, 4, 0][n % 5] };
+                    let tweak = if tp == 0 { 0 } else { [1u32, 2, 3, 4, 6, 7, 8, 0][(n / 2) % 8] };
                     let tweak = if v == Variant::Ot && tweak == 4 { 0 } else { tweak };
                     let key = key_of(v, prov, sid, &a, rng.next_u64() >> 1, tweak);
                     cx.cache.clear();
@@ -879,7 +893,7 @@ fn run_c02(o: &Opts, cx: &mut Ctx) {
     for k in 0..hon {
         let v = if k % 3 == 1 { Variant::Ot } else { Variant::Ext };
         let a = [special_scalar(&mut rng, k), special_scalar(&mut rng, k / 4 + 1)];
-        let tweak = [0u32, 1, 2, 3][k % 4];
+        let tweak = [0u32, 1, 2, 3, 6, 7, 8][k % 7];
         let key = key_of(v, if v == Variant::Ot { "na" } else if k % 2 == 0 { "syn" } else { "pipe" }, gen_sid(&mut rng, k), &a, rng.next_u64() >> 1, tweak);
         cx.cache.clear();
         scenario(cx, &format!("{} honest", key.line()));
@@ -894,6 +908,28 @@ fn run_c02(o: &Opts, cx: &mut Ctx) {
             for name in ["noncanonical:eta", "noncanonical:check-entry", "noncanonical:entry"] {
                 if let Some((m, op)) = mutation(&base, name, 7) { altered(cx, &base, "noncanonical-encoding", &format!("{} mut {} 7", key.line(), name), name, &m, op); }
             }
+        }
+    }
+    // ---- directed: a masked value a_tilde[j][i] = (t0 - t1)[j][i] + a_i is small for the sender input a_i = small - (t0 - t1)[j][i],
+    //      and a small scalar has a second 256-bit encoding x + q: the message with that encoding in row j must be rejected
+    //      (a_tilde enters the theta transcript byte for byte)
+    for (n, v) in [Variant::Ext, Variant::Ot, Variant::Ext].into_iter().enumerate() {
+        let a0 = [rand_scalar(&mut rng), rand_scalar(&mut rng)];
+        let (sid, seed) = (gen_sid(&mut rng, 6 + n), rng.next_u64() >> 1);
+        let prov = if v == Variant::Ot { "na" } else { "syn" };
+        cx.cache.clear();
+        let Some(b0) = cx.base(&key_of(v, prov, sid, &a0, seed, 0)) else { continue };
+        let (j, i) = (rng.gen_range(0..XI), rng.gen_range(0..L_BATCH));
+        let o = v.core_off() + j * ROW + i * KAPPA_BYTES;
+        let Some(x) = sc_from_hex(&hex::encode(&b0.msg2[o..o + KAPPA_BYTES])) else { continue };
+        let mut a = a0; a[i] = a0[i] - x + Scalar::from(n as u64 * 1000 + 5);
+        cx.cache.clear();
+        let key = key_of(v, prov, sid, &a, seed, 0);
+        if let Some(base) = cx.base(&key) {
+            let small = base.msg2[o..o + 16].iter().all(|b| *b == 0);
+            cx.rep.hist(if small { "crafted-sender-input:small a_tilde entry" } else { "crafted-sender-input:entry not small" });
+            let name = format!("noncanonical:entry@{j}.{i}");
+            if let Some((m, op)) = mutation(&base, &name, 7) { altered(cx, &base, "noncanonical-encoding", &format!("{} mut {} 7", key.line(), name), "noncanonical:crafted-entry", &m, op); }
         }
     }
     // ---- error paths of the senders (correspondence; a bad round-one message must not produce shares)
